@@ -322,9 +322,46 @@ pub fn c19(h: &mut H) {
     let b = field(&k.pk, "b");
     let hh = field(&ck, "h");
     let gs: Vec<Integer> = gbases(&ck);
-    let check = |h: &mut H, what: &str, proof: &Value, challenges: &[(String, Integer)], secrets: &[(String, Integer)], id: u64| {
+    let check = |h: &mut H, what: &str, proof: &Value, challenges: &[(String, Integer)], secrets: &[(String, Integer)], id: u64, equal_blindings_by_construction: bool| {
         let mut lv = Vec::new();
         leaves(proof, String::new(), &mut lv);
+        // one blinding answering under TWO challenges (inside one proof: two sub-proofs that share their first
+        // move): (s - s') / (c - c') is the secret -- the two-transcript extraction without a second transcript.
+        // Challenge candidates: the recomputable ones and every leaf called `challenge`. (A proof regenerated from a
+        // boundary tape has equal blindings by construction and is skipped.)
+        if !equal_blindings_by_construction {
+            let resp = |p: &String| -> bool {
+                let last = p.rsplit('.').next().unwrap_or("");
+                let stem = last.split('[').next().unwrap_or("");
+                matches!(stem, "s1" | "s2" | "d" | "d_1" | "d_2") || (stem.starts_with("s_") && stem[2..].chars().all(|c| c.is_ascii_digit()))
+            };
+            let mut cs: Vec<(String, Integer)> = challenges.to_vec();
+            for (lp, v) in &lv {
+                if lp.rsplit('.').next().unwrap_or("") == "challenge" && *v > 0 && !cs.iter().any(|(_, c)| c == v) {
+                    cs.push((lp.clone(), v.clone()));
+                }
+            }
+            let rs: Vec<&(String, Integer)> = lv.iter().filter(|(lp, v)| resp(lp) && *v > 0).collect();
+            let big: Vec<&(String, Integer)> = secrets.iter().filter(|(_, x)| x.clone().abs() >= two64()).collect();
+            for a in 0..rs.len() {
+                for b2 in (a + 1)..rs.len() {
+                    let d = Integer::from(&rs[a].1 - &rs[b2].1);
+                    if d == 0 { continue; }
+                    for i in 0..cs.len() {
+                        for j in (i + 1)..cs.len() {
+                            let dc = Integer::from(&cs[i].1 - &cs[j].1);
+                            if dc == 0 { continue; }
+                            let q = Integer::from(&d / &dc);
+                            let qn = Integer::from(-&q);
+                            for (sn, x) in &big {
+                                h.expect(far(&q, x) && far(&qn, x), "C19.two_challenge_extraction",
+                                    &format!("{}: ({} - {}) / ({} - {}) is within 2^64 of secret {}: one blinding answers under two challenges", what, rs[a].0, rs[b2].0, cs[i].0, cs[j].0, sn), &[id]);
+                            }
+                        }
+                    }
+                }
+            }
+        }
         // response leaves: everything except public commitments / group elements is a candidate;
         // the property quantifies over ALL integer leaves
         h.stat(&format!("C19.{}.proofs", what));
@@ -386,7 +423,8 @@ pub fn c19(h: &mut H) {
         ch.push(("c_r".into(), hash_ints(&[&bases[0], &b, &field(&pr["commitment"], "value"), &field(&pr["value"], "t")])));
         let _ = n_hidden;
         let id = h.last();
-        check(h, "issuance", &iss.zk, &ch, &secrets, id);
+        let all_min0 = { let t = &iss.zk_tape; let f: Vec<&Integer> = t.iter().enumerate().filter(|(i, (k, v))| k == "bits" && *v > 0 && !(i + 1 < t.len() && t[i + 1].0 == "prime")).map(|(_, (_, v))| v).collect(); f.len() >= 2 && f.iter().all(|v| **v == pow2(v.significant_bits() - 1)) };
+        check(h, "issuance", &iss.zk, &ch, &secrets, id, all_min0);
         let p = params(h.suite);
         let mut rps: Vec<(String, Value, Integer, Integer, Integer)> = Vec::new();
         for (j, &i) in iss.hidden.iter().enumerate() {
@@ -411,7 +449,8 @@ pub fn c19(h: &mut H) {
             ch.push((format!("c_m{}", i), hash_ints(&[&gs[i], &hh, &field(&pv["commitment"], "value"), &field(&pv["value"], "t")])));
         }
         let id = h.last();
-        check(h, "signature_proof", &pk.pok, &ch, &secrets, id);
+        let all_min0 = { let t = &pk.tape; let f: Vec<&Integer> = t.iter().enumerate().filter(|(i, (k, v))| k == "bits" && *v > 0 && !(i + 1 < t.len() && t[i + 1].0 == "prime")).map(|(_, (_, v))| v).collect(); f.len() >= 2 && f.iter().all(|v| **v == pow2(v.significant_bits() - 1)) };
+        check(h, "signature_proof", &pk.pok, &ch, &secrets, id, all_min0);
         let p = params(h.suite);
         let mut rps: Vec<(String, Value, Integer, Integer, Integer)> = Vec::new();
         for (j, &i) in pk.hidden.iter().enumerate() {
